@@ -983,8 +983,8 @@ def meta_C12(seed, tier, bins, n=None):
     m = max(10, n // 3)
     pairs = []
     for k in range(m):
-        sc = Scenario("C12-twinevt-%d-%d" % (seed, k), cap=rng.choice([1, 2, 8]), buf=2 * rng.choice([48, 64, 100]),
-                      uns=rng.choice([-1, 48]), mutex=0)
+        sc = Scenario("C12-twinevt-%d-%d" % (seed, k), cap=rng.choice([1, 2, 8]), buf=rng.choice([96, 128, 200, 65, 97, 129, 201]),
+                      uns=rng.choice([-1, -1, 48]), mutex=0)        # odd sizes too: the two halves of a shared buffer must still not overlap
         sc.group()
         a = sc.slot(1, b"\x05")
         ncmd = rng.randint(1, 4)
